@@ -89,8 +89,14 @@ def host_flags():
 
 def cut_verbatim(relfile, name):
     """(text, first line) of a function cut from the real file"""
-    src = open(frontend.repo(relfile), encoding="utf-8", errors="replace").read()
+    path = frontend.repo(relfile)
+    src = open(path, encoding="utf-8", errors="replace").read()
     s, e, line = frontend.cut_function(src, name)
+    # the file-local macros the function text uses come along (verbatim directives of the same file; a duplicate of an included
+    # header's macro is only a redefinition warning)
+    ctx, _names = frontend.file_local_context(src, path, [(s, e)], [src[s:e]], "", kinds=("define",))
+    if ctx:
+        return ctx + '#line %d "%s"\n' % (line, path) + src[s:e], line
     return src[s:e], line
 
 
